@@ -53,6 +53,7 @@ def jobs(tier):
             if not mask:
                 fx["o0"] = 0
             out.extend(tjobs("vf.harness.walk:state_template", t, tier, fixed=fx, extra_params=ep, extra_pre=pre, timeout=600 if q else 2400,
+                             shrink=({"size": (2, 3), "a": (0, 1), "b": (1, 3), "c": (1, 2), "i": (0, 1), "j": (0, 1)} if q else None),
                              name=f"c06_emulator_{t}_m{mask}", base="state_template", functions=FUNCS + ["UnitarySerializedEmulator._make_subcircuit"],
                              note=f"{t}: the emulator acts on the same physical qubit as the reference resolution of every alias reference (state comparison), and "
                                   "get_used_qubit_indices of the circuit as written (macros unexpanded) equals the reference set"))
